@@ -125,6 +125,26 @@ Theorem simplify_mem_dest_preserves : forall isem prog regions,
 Proof. exact lowering_preserves_store_insn. Qed.
 Print Assumptions simplify_mem_dest_preserves.
 
+(* simplify_op emits the address arithmetic of a memory RESULT operand behind a non-move insn, next to
+   the store - except for the overflow insns ADDO..UMULOS, where it stays in front of the insn
+   ([simplify_mem_dest_preserves]: in front, the state after the insn has the flags of the original).
+   Behind the insn the chain would stand between the insn and the branch that reads its flags: after ANY
+   non-empty chain (a displacement, a scaled index, base + index), run from any state - also one whose
+   flags an overflow insn has just set - the flags are undefined and none of BO/BNO/UBO/UBNO can execute. *)
+Theorem simplify_ovf_result_address_behind_loses_flags : forall isem prog regions,
+  (forall a b, sem_val isem ADD [a; b] = Some (u64 (a + b))) ->
+  (forall a b, sem_val isem MUL [a; b] = Some (u64 (a * b))) ->
+  forall m t s f rest cs a,
+  st_frames s = f :: rest ->
+  defd_opt (fr_regs f) (m_base m) -> defd_opt (fr_regs f) (m_index m) ->
+  lower m t = (cs, Some a) -> cs <> [] ->
+  exists s' f',
+    run_chain isem prog regions s f cs = Some (s', f') /\ st_flags s' = None /\
+    forall o l, In o [BO; BNO; UBO; UBNO] ->
+                exec_insn isem prog regions s' f' (I o [Olabel l]) = Fail E_flags.
+Proof. exact result_address_after_overflow_insn. Qed.
+Print Assumptions simplify_ovf_result_address_behind_loses_flags.
+
 (* (the two hypotheses on the instruction semantics are [lowering_insns_meaning] for the integer
    semantics the engines are compared with: C01.InsnSem.mir_val_int) *)
 
